@@ -15,6 +15,7 @@ then ascending thread id, timeout alternatives last, interrupt alternative last)
 
 import collections
 import gc
+import re
 import sys
 import threading
 import time
@@ -128,7 +129,8 @@ class Execution:
             pass
         except BaseException as exc:  # the thread dies, as a real one would
             t.crash = exc
-            self.log.append(("crash", t.tid, repr(exc)))
+            # (the per-execution scratch directory is not part of the observation)
+            self.log.append(("crash", t.tid, re.sub(r"/x\d+/", "/x#/", repr(exc))))
         finally:
             sys.settrace(None)
         try:
